@@ -10,6 +10,7 @@ pub mod c04;
 pub mod c05;
 pub mod c06;
 pub mod c07;
+pub mod c08;
 pub mod c09;
 pub mod c10;
 pub mod c11;
@@ -27,13 +28,14 @@ pub struct Check {
 }
 
 pub fn all() -> Vec<Check> {
-    vec![c01::CHECK, c02::CHECK, c03::CHECK, c04::CHECK, c05::CHECK, c06::CHECK, c07::CHECK, c09::CHECK, c10::CHECK, c11::CHECK, c12::CHECK, c13::CHECK, c14::CHECK]
+    vec![c01::CHECK, c02::CHECK, c03::CHECK, c04::CHECK, c05::CHECK, c06::CHECK, c07::CHECK, c08::CHECK, c09::CHECK, c10::CHECK, c11::CHECK, c12::CHECK, c13::CHECK, c14::CHECK]
 }
 
 /// entry point of worker subprocesses (C08, C18, C20)
 pub fn worker_main(args: &[String]) -> i32 {
     match args.first().map(|s| s.to_lowercase()).as_deref() {
         Some("c07") => c07::worker(&args[1..]),
+        Some("c08") => c08::worker(&args[1..]),
         _ => 2,
     }
 }
